@@ -303,7 +303,29 @@ def special_cases():
     u = B.Sym('uS_0', G.US)
     a = B.Sym('a0', B.ARR(B.INT, B.BV(8)))
     ab = B.Sym('ab0', B.ARR(B.INT, B.BOOL))
-    out = [
+    # parametric custom sorts of arity 1, 2, 3 (also nested, also only
+    # inside arrays / function sorts / binders)
+    UU, VV, WW = ('U', 'Uo'), ('U', 'Vo'), ('U', 'Wo')
+    box = lambda t: ('U', 'Box', (t,))
+    pair = lambda t1, t2: ('U', 'Pair', (t1, t2))
+    tri = ('U', 'Tri', (B.INT, UU, B.BV(5)))
+    psorts = [box(UU), box(box(VV)), B.ARR(B.INT, box(WW)),
+              pair(box(UU), B.REAL), tri, box(B.ARR(box(B.BV(7)), UU)),
+              B.FUN(box(VV), (box(box(WW)),))]
+    par = []
+    for k, t in enumerate(psorts):
+        if t[0] == 'Fun':
+            arg = B.Sym('c12_pa%d' % k, t[2][0])
+            e = ('eq', None, (B.App('c12_pf%d' % k, t, (arg,)),
+                              B.App('c12_pf%d' % k, t, (arg,))))
+        else:
+            e = ('eq', None, (B.Sym('c12_p%d' % k, t),
+                              B.Sym('c12_q%d' % k, t)))
+        par.append(e)
+        par.append(('and', None, (p, ('forall', (('c12_b%d' % k, t if
+                                                  t[0] != 'Fun' else
+                                                  t[1]),), (q,)))))
+    out = par + [
         # quantifier shadows a free symbol
         ('and', None, (p, ('forall', (('p0', B.BOOL),), (
             ('or', None, (p, q)),)))),
